@@ -243,10 +243,26 @@ func c19Body(p c19Params) func() explore.SchedOutcome {
 			// later readers, posters and logins are still served
 			a, b := connect(1), connect(2)
 			tmp := filepath.Join(wd.ConfigDir, "MessageBoard.txt.tmp")
-			_ = os.MkdirAll(filepath.Join(tmp, "blocker"), 0755)
+			boardFile := filepath.Join(wd.ConfigDir, "MessageBoard.txt")
+			var saved []byte
+			if p.Size%2 == 1 {
+				// the other fault point: the temporary file can be written, moving it into place fails (a non-empty
+				// directory sits at the board file's name)
+				saved, _ = os.ReadFile(boardFile)
+				_ = os.Remove(boardFile)
+				_ = os.MkdirAll(filepath.Join(boardFile, "blocker"), 0755)
+				tmp = boardFile
+			} else {
+				_ = os.MkdirAll(filepath.Join(tmp, "blocker"), 0755)
+			}
 			vrt.EndSetup()
 			pid := a.Req(ref.TOldPostNews, ref.FS(ref.FData, "lost post"))
 			vrt.Settle(5 * time.Second)
+			if p.Size%2 == 1 {
+				_ = os.RemoveAll(boardFile)
+				_ = os.WriteFile(boardFile, saved, 0644)
+				tmp = boardFile + ".tmp"
+			}
 			// "is on disk when acknowledged": a post whose write failed is not acknowledged as a success
 			if r := a.Reply(pid); r != nil && r.Err == 0 {
 				if raw, _ := os.ReadFile(filepath.Join(wd.ConfigDir, "MessageBoard.txt")); !strings.Contains(string(raw), "lost post") {
@@ -361,7 +377,7 @@ func runC19(w *explore.Worker) {
 	for _, sz := range []int{0, 1, 511, 512, 513, 2000, 40000, 65000} {
 		jobs = append(jobs, job{c19Params{"sweep", sz}, 0})
 	}
-	jobs = append(jobs, job{c19Params{"post-fault", 100}, 0}, job{c19Params{"delimiter", 100}, 0}, job{c19Params{"delimiter", 101}, 0})
+	jobs = append(jobs, job{c19Params{"post-fault", 100}, 0}, job{c19Params{"post-fault", 101}, 0}, job{c19Params{"delimiter", 100}, 0}, job{c19Params{"delimiter", 101}, 0})
 	if !w.Thorough {
 		jobs = append(jobs, job{c19Params{"readers+poster", 40000}, 1}, job{c19Params{"logins", 40000}, 1})
 	}
